@@ -68,6 +68,8 @@ type Partition struct {
 	Log      []refcodec.Batch
 	LogStart int64
 	End      int64 // next offset to assign (= high watermark)
+	// OpenTxnFrom > 0: a transaction is open from this offset on, the last stable offset is this and not End
+	OpenTxnFrom int64
 	encCache map[encKey][]byte
 }
 
